@@ -394,6 +394,73 @@ type EnvStruct struct {
 
 func intp(i int) *int { return &i }
 
+// "structR": the standard names and types once more, with the object fields DECLARED IN
+// ANOTHER ORDER (object types are compared by field name, values are laid out by their own
+// type's order) and other element values.
+type InnerR struct {
+	Tags []string `yae:"tags"`
+	Name string   `yae:"name"`
+	ID   int      `yae:"id"`
+}
+
+type EnvStructR struct {
+	Mo map[string]InnerR `yae:"mo"`
+	Lo []InnerR          `yae:"lo"`
+	Ll [][]int           `yae:"ll"`
+	T  time.Time         `yae:"t"`
+	P  *WithMaybe        `yae:"p"`
+	O  InnerR            `yae:"o"`
+	Mi map[int]string    `yae:"mi"`
+	M  map[string]int    `yae:"m"`
+	Ls []string          `yae:"ls"`
+	L  []int             `yae:"l"`
+	B  bool              `yae:"b"`
+	S  string            `yae:"s"`
+	X  float64           `yae:"x"`
+	N  int               `yae:"n"`
+}
+
+func envStdStructR() interface{} {
+	return &EnvStructR{
+		N: 44, X: 4.5, S: "hallo", B: true,
+		L: []int{5, 3, 5, 4}, Ls: []string{"c", "d", "c", "e"},
+		M:  map[string]int{"k1": 21, "k2": 22, "k3": 23, "k4": 24},
+		Mi: map[int]string{1: "eins", 2: "zwei", 3: "drei"},
+		O:  InnerR{[]string{"p", "q", "r"}, "nine", 9},
+		P:  &WithMaybe{A: 3.5, B: intp(7), C: nil},
+		T:  time.Unix(1600000200, 0),
+		Ll: [][]int{{3, 4}, {5}},
+		Lo: []InnerR{{nil2(), "c", 3}, {[]string{"v"}, "d", 4}},
+		Mo: map[string]InnerR{"u": {[]string{"s"}, "c", 3}, "v": {[]string{"t"}, "d", 4}},
+	}
+}
+
+// "ifaceA" / "ifaceB": ONE Go type whose containers hold interface values; the two
+// environments differ in the dynamic type of what they hold (numbers / strings), so the
+// same Go type stands for two different typings.
+type InnerI struct {
+	Vals []interface{} `yae:"vals"`
+}
+
+type EnvIface struct {
+	N      int                    `yae:"n"`
+	Params map[string]interface{} `yae:"params"`
+	Xs     []interface{}          `yae:"xs"`
+	In     InnerI                 `yae:"in"`
+}
+
+func envIfaceA() interface{} {
+	return &EnvIface{N: 3, Params: map[string]interface{}{"k": 1, "l": 2}, Xs: []interface{}{10, 20, 30}, In: InnerI{[]interface{}{7, 8}}}
+}
+
+func envIfaceA2() interface{} {
+	return &EnvIface{N: 4, Params: map[string]interface{}{"k": 5, "m": 6}, Xs: []interface{}{11, 21}, In: InnerI{[]interface{}{9}}}
+}
+
+func envIfaceB() interface{} {
+	return &EnvIface{N: 3, Params: map[string]interface{}{"k": "v", "l": "w"}, Xs: []interface{}{"x", "yy", "zzz"}, In: InnerI{[]interface{}{"p", "q"}}}
+}
+
 func envStdMap() interface{} {
 	return map[string]interface{}{
 		"n": 42, "x": 2.5, "s": "héllo", "b": true,
@@ -581,11 +648,12 @@ func setOr(dst, src reflect.Value) bool {
 	return false
 }
 
+var stdTyped = []string{"map", "struct", "map2", "struct2", "map3", "struct3", "structR"}
+
 // sameTyped lists, per environment, the environments that bind the same names to the same types.
 var sameTyped = map[string][]string{
-	"map": {"map", "struct", "map2", "struct2", "map3", "struct3"}, "struct": {"map", "struct", "map2", "struct2", "map3", "struct3"},
-	"map2": {"map", "struct", "map2", "struct2", "map3", "struct3"}, "struct2": {"map", "struct", "map2", "struct2", "map3", "struct3"},
-	"map3": {"map", "struct", "map2", "struct2", "map3", "struct3"}, "struct3": {"map", "struct", "map2", "struct2", "map3", "struct3"},
+	"map": stdTyped, "struct": stdTyped, "map2": stdTyped, "struct2": stdTyped, "map3": stdTyped, "struct3": stdTyped, "structR": stdTyped,
+	"ifaceA": {"ifaceA", "ifaceA2"}, "ifaceA2": {"ifaceA", "ifaceA2"}, "ifaceB": {"ifaceB"},
 	"alt": {"alt", "altstruct"}, "altstruct": {"alt", "altstruct"},
 	"alt2": {"alt2", "alt2struct"}, "alt2struct": {"alt2", "alt2struct"},
 }
@@ -723,6 +791,10 @@ var envMakers = map[string]func() interface{}{
 	"hetero2":   envHetero2,
 	"alt":       envAltMap,
 	"altstruct": envAltStruct,
+	"structR":   envStdStructR,
+	"ifaceA":    envIfaceA,
+	"ifaceA2":   envIfaceA2,
+	"ifaceB":    envIfaceB,
 	"alt2":      envAlt2Map,
 	"alt2struct": envAlt2Struct,
 	"none":   func() interface{} { return nil },
